@@ -1,5 +1,6 @@
 //! C14 — sub-ontologies keep shortest leaf-root chains, induced links, phenotype links.
 
+use super::common::{build_path, expected_facts, PathSel};
 use crate::build::*;
 use crate::gen::{self, pick, GenCfg, NameMode};
 use crate::model::*;
@@ -21,14 +22,19 @@ pub struct Case {
     pub root: u32,
     /// leaf term ids, duplicates allowed, non-empty
     pub leaves: Vec<u32>,
+    /// how the source ontology is constructed (default: own v3 bytes)
+    #[serde(default = "super::c13::default_path")]
+    pub path: PathSel,
 }
 
 pub fn check(c: &Case, stats: &mut Stats) -> CheckResult {
-    let src = match via_binary(&c.facts, 3) {
+    let src = match build_path(&c.facts, c.path, &JaxNoise::default()) {
         Ok(o) => o,
-        Err(e) => return fail("construct/bin-v3", e),
+        Err(e) => return fail(format!("construct/{}", c.path.name()), e),
     };
-    let m = Model::new(&c.facts);
+    let src_facts = expected_facts(&c.facts, c.path);
+    let m = Model::new(&src_facts);
+    stats.count(&format!("path:{}", c.path.name()), 1);
     ensure!(m.has(c.root) && !c.leaves.is_empty() && c.leaves.iter().all(|l| m.has(*l)), "harness/bad-case", "root/leaves must be terms of the source");
     let mods = m.default_modifier().unwrap_or_default();
     let inside: BTreeSet<u32> = {
@@ -75,12 +81,12 @@ pub fn check(c: &Case, stats: &mut Stats) -> CheckResult {
     }
     // ---- expected facts restricted to the retained terms
     let mut exp = Facts::default();
-    for t in &c.facts.terms {
+    for t in &src_facts.terms {
         if kept.contains(&t.id) && !exp.has_term(t.id) {
             exp.terms.push(t.clone());
         }
     }
-    for (ch, p) in &c.facts.edges {
+    for (ch, p) in &src_facts.edges {
         if kept.contains(ch) && kept.contains(p) {
             exp.edges.push((*ch, *p));
         }
@@ -180,8 +186,9 @@ pub fn check(c: &Case, stats: &mut Stats) -> CheckResult {
 fn strategy(tier: Tier) -> BoxedStrategy<Case> {
     let max = if tier == Tier::Quick { 18 } else { 50 };
     let cfg = GenCfg::small().terms(2, max).recs(6).standard().with_flags(true).names(NameMode::Capped);
-    (gen::facts(cfg), prop_oneof![2 => Just(None), 3 => any::<u16>().prop_map(Some)], prop_oneof![19 => vec((any::<u16>(), 0u8..12), 1..=6), 1 => vec((any::<u16>(), 0u8..12), 31..=45)])
-        .prop_map(|(facts, root_pick, leaf_picks)| {
+    let paths = prop_oneof![6 => Just(PathSel::Bin(3)), 2 => Just(PathSel::Bin(2)), 1 => Just(PathSel::Bin(1)), 2 => Just(PathSel::Jax), 1 => Just(PathSel::RoundTrip), 1 => Just(PathSel::BuilderDefaults)];
+    (gen::facts(cfg), paths, prop_oneof![2 => Just(None), 3 => any::<u16>().prop_map(Some)], prop_oneof![19 => vec((any::<u16>(), 0u8..12), 1..=6), 1 => vec((any::<u16>(), 0u8..12), 31..=45)])
+        .prop_map(|(facts, path, root_pick, leaf_picks)| {
             let m = Model::new(&facts);
             let root = match root_pick {
                 None => 1,
@@ -203,7 +210,7 @@ fn strategy(tier: Tier) -> BoxedStrategy<Case> {
                     leaves.push(inside[pick(p, inside.len())]);
                 }
             }
-            Case { facts, root, leaves }
+            Case { facts, root, leaves, path }
         })
         .boxed()
 }
@@ -213,7 +220,7 @@ impl Property for C14 {
         "C14"
     }
     fn rule(&self) -> String {
-        "Generated: source ontologies with HP:0000001/HP:0000118, modifier branches, obsolete/replaced terms and records on phenotype terms, modifier descendants and modifier roots (loaded from own v3 bytes so that modifier roots are defined); root = HP:0000001 or any term; 1-6 (one case in 20: 31-45) leaves from {root} ∪ descendants(root) with duplicates, leaf == root, leaves that are ancestors of other leaves, and (error class) leaves outside root's subtree. Oracle: Err iff some leaf is not root or a descendant of root. Otherwise: root and every leaf present; every retained term satisfies u(leaf,t)+u(t,root) = u(leaf,root) for some leaf (BFS distances on the source facts); names, flags, replacements copied; parent/child/ancestor relations = the source's links induced on the retained set; a record is present iff it is directly annotated to a retained term t with ({t} ∪ ancestors(t)) ∩ modifier roots = ∅, with hpo_terms = direct terms ∩ retained; inheritance, IC (totals = kept records), lookups as in C01-C03 against the reference model of the restricted facts; every leaf reaches root at its original distance. evaluations = sub_ontology calls. Non-trivial = >=2 distinct leaves, a retained modifier term carrying a record, >=1 record dropped (or an error-class request); distinct by hash of the case.".into()
+        "Generated: source ontologies with HP:0000001/HP:0000118, modifier branches, obsolete/replaced terms and records on phenotype terms, modifier descendants and modifier roots (built with defaults through own v1/v2/v3 bytes, the as_bytes round trip, JAX files or the Builder, so that modifier roots are defined); root = HP:0000001 or any term; 1-6 (one case in 20: 31-45) leaves from {root} ∪ descendants(root) with duplicates, leaf == root, leaves that are ancestors of other leaves, and (error class) leaves outside root's subtree. Oracle: Err iff some leaf is not root or a descendant of root. Otherwise: root and every leaf present; every retained term satisfies u(leaf,t)+u(t,root) = u(leaf,root) for some leaf (BFS distances on the source facts); names, flags, replacements copied; parent/child/ancestor relations = the source's links induced on the retained set; a record is present iff it is directly annotated to a retained term t with ({t} ∪ ancestors(t)) ∩ modifier roots = ∅, with hpo_terms = direct terms ∩ retained; inheritance, IC (totals = kept records), lookups as in C01-C03 against the reference model of the restricted facts; every leaf reaches root at its original distance. evaluations = sub_ontology calls. Non-trivial = >=2 distinct leaves, a retained modifier term carrying a record, >=1 record dropped (or an error-class request); distinct by hash of the case.".into()
     }
     fn assumptions(&self) -> Vec<String> {
         vec![
@@ -223,8 +230,8 @@ impl Property for C14 {
     }
     fn cases(&self, tier: Tier) -> u64 {
         match tier {
-            Tier::Quick => 150_000,
-            Tier::Thorough => 1_500_000,
+            Tier::Quick => 100_000,
+            Tier::Thorough => 1_000_000,
         }
     }
     fn required_labels(&self, _tier: Tier) -> Vec<&'static str> {
